@@ -10,7 +10,7 @@ PROP = "C04"
 PROP_FILES = sorted(os.path.relpath(p, common.COQ) for p in glob.glob(os.path.join(common.COQ, "props", "C04*.v")))
 TRUSTED = [
     "the loader mirrors coq/model/Parse_*.v (Musepack, WavPack, SMF, VComment, OggVorbis/Opus/Speex/Theora Info on Model.Ogg.page_parse, _APEv2Data, ID3Header, MP4 Atom/Atoms, "
-    "TrueAudio/MonkeysAudio/OptimFROG headers, DSF chunks + metadata pointer, AC3Info over BitReader, AIFF.load's IFF chunk walk + AIFFInfo/read_float, WAVE.load's RIFF walk + WaveStreamInfo, DSDIFF.load's 64-bit IFF walk + DSDIFFInfo, AACInfo (ADIF / ADTS) over BitReader, FLAC.load's block walk with StreamInfo / CueSheet / Picture / VCFLACDict loads) are hand-written, tied to /repo by outcome-class + decoded-field correspondence on the malformed stream and field sweeps",
+    "TrueAudio/MonkeysAudio/OptimFROG headers, DSF chunks + metadata pointer, AC3Info over BitReader, AIFF.load's IFF chunk walk + AIFFInfo/read_float, WAVE.load's RIFF walk + WaveStreamInfo, DSDIFF.load's 64-bit IFF walk + DSDIFFInfo, AACInfo (ADIF / ADTS) over BitReader, FLAC.load's block walk with StreamInfo / CueSheet / Picture / VCFLACDict loads, ASF.load's object loop + GUID dispatch + attribute parsers, OggFLAC info / comment loading without _post_tags) are hand-written, tied to /repo by outcome-class + decoded-field correspondence on the malformed stream and field sweeps",
     "the file object of the mirrors is CPython's BytesIO (read/seek/tell incl. ValueError on negative absolute seek, clamping of relative seeks, OverflowError beyond "
     "ssize_t) -- Model.Parse_base; real files differ (negative seek is an OSError, which every mirrored loader converts to its error class)",
     "c04_input (theorem hypothesis): the input is a list of bytes (0..255) shorter than 2^62; Python floats, text decoding with errors='replace' and AtomError "
@@ -35,7 +35,8 @@ MANIFEST = {
             "mirrors of MusepackInfo, WavPackInfo, SMF, VComment.load, OggPage + OggVorbis/Opus/Speex/Theora Info (under OggFileType.load's mapping), _APEv2Data, ID3Header, MP4 Atom/Atoms "
             "(under MP4.load's mapping), the TrueAudio/MonkeysAudio/OptimFROG header readers, DSF.load up to the ID3 header, AC3Info (AC-3 / E-AC-3 headers through BitReader) "
             "and AIFF.load's chunk walk + AIFFInfo, WAVE.load's RIFF walk + WaveStreamInfo, DSDIFF.load's 64-bit IFF walk + DSDIFFInfo (each without the ID3 parse), AACInfo (ADIF header + program "
-            "config elements, ADTS sync search + frame walk) and FLAC.load (header check, metadata block walk, StreamInfo / CueSheet / Picture / VCFLACDict loads); all other parsers, the tag-level parsers behind these headers, and the "
+            "config elements, ADTS sync search + frame walk) FLAC.load (header check, metadata block walk, StreamInfo / CueSheet / Picture / VCFLACDict loads), ASF.load (object loop, GUID dispatch, attribute parsers; a nested header extension object is refused) "
+            "and OggFLAC info + comment loading (without _post_tags / find_last); all other parsers, the tag-level parsers behind these headers, and the "
             "open-save-delete contract as a whole, by structured + mutation fuzzing with a watchdog over all openers",
     "note": "Not covered by theorem: parsers without an exception-faithful model in this commit (listed in the evidence as families_without_theorem); they are "
             "explored by the direct oracle, which is a search. Allocation is bounded by construction in the model (reads return at most what the file holds); "
@@ -163,14 +164,14 @@ OPENER_NAMES = ["MP3", "TrueAudio", "OggTheora", "OggSpeex", "OggVorbis", "OggFL
 OPENER_THEOREMS = {
     "Musepack": ["Musepack", "APEv2Data"], "WavPack": ["WavPack", "APEv2Data"], "SMF": ["SMF"],
     "OggVorbis": ["OggVorbisInfo", "VComment"],
-    "OggTheora": ["OggTheoraInfo", "VComment"], "OggSpeex": ["OggSpeexInfo", "VComment"], "OggOpus": ["OggOpusInfo", "VComment"], "OggFLAC": [],
+    "OggTheora": ["OggTheoraInfo", "VComment"], "OggSpeex": ["OggSpeexInfo", "VComment"], "OggOpus": ["OggOpusInfo", "VComment"], "OggFLAC": ["OggFLAC"],
     "APEv2File": ["APEv2Data"], "APEv2": ["APEv2Data"],
     "MonkeysAudio": ["MonkeysAudio", "APEv2Data"], "OptimFROG": ["OptimFROG", "APEv2Data"], "TAK": ["APEv2Data"],
     "TrueAudio": ["TrueAudio", "ID3Header"], "EasyTrueAudio": ["TrueAudio", "ID3Header"],
     "MP3": ["ID3Header", "ID3determine_bpi"], "EasyMP3": ["ID3Header", "ID3determine_bpi"], "ID3FileType": ["ID3Header", "ID3determine_bpi"],
     "EasyID3FileType": ["ID3Header", "ID3determine_bpi"], "ID3": ["ID3Header", "ID3determine_bpi"], "EasyID3": ["ID3Header", "ID3determine_bpi"],
     "MP4": ["MP4Atoms"], "EasyMP4": ["MP4Atoms"],
-    "DSF": ["DSF", "ID3Header", "ID3determine_bpi"], "AC3": ["AC3"], "AIFF": ["AIFF", "ID3Header", "ID3determine_bpi"], "WAVE": ["WAVE", "ID3Header", "ID3determine_bpi"], "DSDIFF": ["DSDIFF", "ID3Header", "ID3determine_bpi"], "AAC": ["AAC"], "FLAC": ["FLAC"],
+    "DSF": ["DSF", "ID3Header", "ID3determine_bpi"], "AC3": ["AC3"], "AIFF": ["AIFF", "ID3Header", "ID3determine_bpi"], "WAVE": ["WAVE", "ID3Header", "ID3determine_bpi"], "DSDIFF": ["DSDIFF", "ID3Header", "ID3determine_bpi"], "AAC": ["AAC"], "FLAC": ["FLAC"], "ASF": ["ASF"],
 }
 OPENER_THEOREMS = {k: v for k, v in OPENER_THEOREMS.items() if v}
 
